@@ -200,6 +200,19 @@ func c27CanonicalDefs(r *verifkit.Run) {
 				cases = append(cases, c27Case{kind: "def/canonical-time", node: o, ot: o, big: true})
 			}
 		}
+		// infinities as values: avg digests per second are {10+t, 21, 32, 40}
+		for _, wk := range []string{"absdiv0", "negabsdiv0", "shiftdiv0"} { // all +Inf | all -Inf | -Inf, missing(0/0), +Inf, +Inf
+			for _, op := range []string{"sum", "min", "max", "avg", "count", "group", "stddev", "stdvar", "quantile"} {
+				s := sel("avg")
+				a := &c27AggNode{op: op, param: 0.5, inner: &c27Wrap{kind: wk, inner: s}}
+				cases = append(cases, c27Case{kind: "def/canonical-inf", node: a, outer: a, sel: s, inf: true})
+			}
+			for _, fn := range c27AllFns {
+				s := sel("avg", c27Matcher{"k", "=", "v2"}, c27Matcher{"j", "=", "v1"})
+				o := &c27OverTime{fn: fn, rng: 2, inner: &c27Wrap{kind: wk, inner: s}, phi: 0.5, subquery: true}
+				cases = append(cases, c27Case{kind: "def/canonical-inf", node: o, sel: s, ot: o, inf: true})
+			}
+		}
 		for _, c := range cases {
 			c27DoDef(r, w, st, sp, c, -1)
 		}
